@@ -240,6 +240,15 @@ func init() {
 		c.Em = &EventMgr{}
 		return []Value{c}
 	}
+	// verifOtherChain(name): a context over a SECOND chain with its own arbitrary state, bank and block context
+	// (joint harnesses over the L1 and the L2 module); its initial symbols and store records carry the prefix name+"/"
+	intrinsics["verifOtherChain"] = func(e *Exec, fn *ssa.Function, a []Value) []Value {
+		name := argStr(e, a[0])
+		c := e.newCtx(name)
+		c.St = newState()
+		c.St.Prefix = name + "/"
+		return []Value{c}
+	}
 	intrinsics["verifNote"] = func(e *Exec, fn *ssa.Function, a []Value) []Value { return nil }
 	intrinsics["verifDescribe"] = func(e *Exec, fn *ssa.Function, a []Value) []Value {
 		fmt.Printf("DESCRIBE %s: %s\n", argStr(e, a[0]), describe(a[1]))
